@@ -62,6 +62,50 @@ def tmMachineQuiet (env : C12.Env) (node : Nat) : Machine C12.Machine :=
     step := fun m i =>
       (((tmMachine env node).step m i).1, ((tmMachine env node).step m i).2.filter (fun a => !a.isSync)) }
 
+/-! ## `ProcessTimeout` and a timeout that does not apply any more
+
+`ProcessTimeout` is `processLoop(onTimeoutX(tm), nil)`: the rules are run ALSO when `onTimeoutX`
+returned nil, i.e. when the timeout is for another height / round / step and nothing is written to
+the log. If an earlier call left a rule pending — `process` checks the commit rule (line 49) only
+for the round of the message just received, so a precommit quorum that the node's OWN precommit
+completes while it handles a message of another round stays pending — such an obsolete timeout
+fires it: a `Commit` with no `WriteWAL` (finding F5). Two explicit variants, selected in `c13drv` by
+a probe of the real machine (the model follows the code):
+
+* `tmMachineL` — the code as it is: the loop runs on an ignored timeout;
+* `tmMachineT` — the code with proposed-fixes/C13-ignored-timeout-runs-rules.diff: an ignored
+  timeout returns nil.
+
+Both are wrappers around C12's transcription that decide the ignored-timeout case themselves, so
+they keep their meaning when C12's model follows the repaired code. -/
+
+/-- `onTimeoutPropose/Prevote/Precommit` returned nil: the timeout is not for the machine's current
+height, round (and, for propose / prevote, step). Nothing is logged for it. -/
+def timeoutIgnored (env : C12.Env) (m : C12.Machine) : Input → Bool
+  | .timeout st h r =>
+    match stepOfNat st with
+    | some s => (m.onTimeout env s h r).2.isEmpty
+    | none => false
+  | _ => false
+
+/-- juno's machine with the fix: an ignored timeout does nothing at all. -/
+def tmMachineT (env : C12.Env) (node : Nat) : Machine C12.Machine :=
+  { tmMachine env node with
+    step := fun m i => if timeoutIgnored env m i then (m, []) else (tmMachine env node).step m i }
+
+/-- juno's machine as it is: an ignored timeout still runs `processLoop(nil, nil)`. -/
+def tmMachineL (env : C12.Env) (node : Nat) : Machine C12.Machine :=
+  { tmMachine env node with
+    step := fun m i =>
+      if timeoutIgnored env m i then
+        ((m.processLoop env [] none).1, (m.processLoop env [] none).2.map convAction)
+      else (tmMachine env node).step m i }
+
+/-- A machine without its `TriggerSync` actions (what the driver's log / broadcast / timer / commit
+logic sees). `tmMachineQuiet env node = quietOf (tmMachine env node)`. -/
+def quietOf {S : Type} (M : Machine S) : Machine S :=
+  { M with step := fun s i => ((M.step s i).1, (M.step s i).2.filter (fun a => !a.isSync)) }
+
 /-- The machine as it was BEFORE b154634: in the future-quorum branch of `ProcessPrecommit` the
 `WriteWAL` of the counted precommit was missing (the call returned only `TriggerSync`). A variant for
 regression witnesses; not the current code. -/
